@@ -5,7 +5,7 @@ import os
 from . import common, fsi
 from .common import is_ok
 
-ERRNOS = {"EIO": _errno.EIO, "ENOSPC": _errno.ENOSPC, "EACCES": _errno.EACCES}
+ERRNOS = {"EIO": _errno.EIO, "ENOSPC": _errno.ENOSPC, "EACCES": _errno.EACCES, "ENOENT": _errno.ENOENT}
 
 
 # operations that need free space (ENOSPC is a documented errno of each); removals, truncation and reads still work on a full disk
